@@ -656,12 +656,14 @@ class Interp:
                 targets(t.value)
             elif isinstance(t, ast.Subscript):
                 b = t.value
+                through_attr = False
                 while isinstance(b, (ast.Subscript, ast.Attribute)):
+                    through_attr = through_attr or isinstance(b, ast.Attribute)
                     b = b.value
-                if isinstance(b, ast.Name):
+                if through_attr:
+                    heap.append(ast.unparse(t))       # a write into an object reached through an attribute: heap frame
+                elif isinstance(b, ast.Name):
                     names.add(b.id)
-                if isinstance(t.value, ast.Attribute):
-                    heap.append(ast.unparse(t))
             elif isinstance(t, ast.Attribute):
                 heap.append(ast.unparse(t))
 
